@@ -3,6 +3,11 @@
 use crate::engine::{Ctx, Section};
 
 pub mod c01;
+pub mod c02;
+pub mod c03;
+pub mod c05;
+pub mod c07;
+pub mod c09;
 
 pub struct Prop {
     pub id: &'static str,
@@ -15,5 +20,5 @@ pub struct Prop {
 }
 
 pub fn all() -> Vec<Prop> {
-    vec![c01::prop()]
+    vec![c01::prop(), c02::prop(), c03::prop(), c05::prop(), c07::prop(), c09::prop()]
 }
